@@ -35,7 +35,7 @@ ASSUMPTIONS = [
     "reference implementations in vlib/ref/dnssec.py and the canonical-form flags of the type table (RFC 4034 §6.2 minus NSEC)",
     "NSEC TTL and pre-existing NSEC/RRSIG records are outside the statement and not judged",
 ]
-REQUIRED = ["mon.nsec_chain_resigned", "mon.zonemd_signature_rich", "mon.rrsig_input_relativized", "mon.canonical_form", "mon.rrsig_input", "mon.ds", "mon.key_tag", "mon.nsec3", "mon.zonemd", "mon.nsec_chain", "mon.signer_callback"]
+REQUIRED = ["mon.canonical_order_through_comparison", "mon.zonemd_with_published_digest_and_its_signature", "mon.nsec_chain_resigned", "mon.zonemd_signature_rich", "mon.rrsig_input_relativized", "mon.canonical_form", "mon.rrsig_input", "mon.ds", "mon.key_tag", "mon.nsec3", "mon.zonemd", "mon.nsec_chain", "mon.signer_callback"]
 BUDGET = {"quick": 40.0, "thorough": 420.0}
 
 
@@ -116,6 +116,13 @@ def check_rrsig_input(ctx, rng, t):
                 got = dns.dnssec._make_rrsig_signature_data((mk(owner), rds), sig)
             except dns.exception.DNSException as e:
                 got = None
+            if labels == 0 and len(rds) > 1 and t not in ("LP", "CH-A"):
+                # the canonical order of the set as the comparison operators give it (sorted(rdataset), min, <): RFC 4034 6.3,
+                # i.e. by the canonical (lower-cased where 6.2 says so) RDATA octets
+                ctx.count("mon.canonical_order_through_comparison")
+                lib_order = [rd.to_digestable() for rd in sorted(rds)]
+                if lib_order != sorted(lib_order):
+                    ctx.violation(f"record-set-order-through-comparison-not-canonical:{t}", f"owner={owner!r}: {[x.hex()[:40] for x in lib_order]}", case)
             # the same RRset held the way a relativized zone holds it (owner and embedded names relative to the origin where they
             # lie under it) with the origin passed along: the signing input is the same octets
             if got is not None and t not in GR.META_TYPES and len(origin) > 1 and labels == n:
@@ -293,6 +300,18 @@ def check_zone(ctx, rng):
         mzs = GZ.gen_zone(rng, plain=True, types=["A", "TXT", "RRSIG", "RRSIG", "RRSIG", "MX", "RRSIG"])
         for _exact, _sets in mzs.nodes.values():
             _sets.pop((46, 5), None)  # RRSIG(CNAME) is CNAME-like for the other-data rule of nodes: it would evict its neighbours (C09's subject)
+        # ... with a published digest: a ZONEMD set at the apex and the signature covering it (both left out of the digest, RFC 8976
+        # 3.3.1), and a signature covering ZONEMD somewhere else (which is ordinary data)
+        try:
+            base = GZ.simple_val(rng, "RRSIG", mzs.origin, True)
+            for where in (tuple(mzs.origin), (b"elsewhere",) + tuple(mzs.origin)):
+                args = [63] + list(base.args[1:])
+                parts = [struct.pack("!H", 63)] + list(base.parts[1:])
+                mzs.add(where, GR.Val(1, 46, "RRSIG", args, parts, base.tags), 300)
+            mzs.add(tuple(mzs.origin), GZ.simple_val(rng, "ZONEMD", mzs.origin, True), 300)
+            ctx.count("mon.zonemd_with_published_digest_and_its_signature")
+        except Exception:
+            pass
         zs = GZ.build_lib_zone(mzs, relativize, order=rng)
         for alg in (1, 2):
             ctx.count("mon.zonemd")
